@@ -71,7 +71,7 @@ DeltaPass(last, delta, v) == last = UNDEF \/ Abs(last - v) >= delta
 (* [out |-> value, init |-> BOOLEAN].  Returns [st, d, mem].                             *)
 ApplyFilter(f, i, d, mem, ctl) ==
     LET R(r) == [st |-> r.st, d |-> r.d, mem |-> mem] IN
-    CASE f.k = "const"     -> IF f.r \in {"true", "truthy"} THEN R(Ok(d)) ELSE R(Rej(d))
+    CASE f.k = "const"     -> IF f.r \in {"true", "truthy", "one", "tuple1"} THEN R(Ok(d)) ELSE R(Rej(d))
       [] f.k = "edit"      -> R(Chain(f.ops, d, ctl, 1))
       [] f.k = "edge"      -> IF {"value", "previous"} \subseteq DOMAIN d
                               THEN R(IF EdgePass(f, d["previous"], d["value"]) THEN Ok(d) ELSE Rej(d))
